@@ -43,6 +43,20 @@ func extractQueue() {
 	s.boolean("lqProduceFields", strings.Contains(lp, "Value:item.GetURL().Raw,Via:item.GetSeedVia(),Hops:int64(item.GetURL().GetHops()),"))
 	lc := strings.ReplaceAll(src(fn("internal/pkg/source/lq/consumer.go", "consumerSender")), " ", "")
 	s.boolean("lqConsumeFields", strings.Contains(lc, "Raw:URL.Value,Hops:int(URL.Hops),") && strings.Contains(lc, "models.NewItem(URL.ID,&parsedURL,URL.Via)"))
+	// the consumer: what happens to each claimed URL. The "could not be parsed" flag is declared per URL (inside the receive case),
+	// an unparsable URL goes straight to the finish channel, every other one is inserted into the reactor
+	iCase, iFlag, iLoop := strings.Index(lc, "caseURL:=<-urlBuffer:"), strings.Index(lc, "vardiscardbool"), strings.Index(lc, "for{")
+	scope := "unknown"
+	if iCase >= 0 && iFlag > iCase {
+		scope = "perURL"
+	} else if iFlag >= 0 && (iLoop < 0 || iFlag < iLoop || iFlag < iCase) {
+		scope = "hoisted"
+	}
+	s.str("lqDiscardFlagScope", scope, scope != "unknown")
+	s.boolean("lqUnparsableGoesToFinish", strings.Contains(lc, "err:=parsedURL.Parse()iferr!=nil{discard=true}") &&
+		strings.Contains(lc, "ifdiscard{") && strings.Contains(lc, "globalLQ.finishCh<-newItembreak}"))
+	s.boolean("lqParsableGoesToReactor", strings.Count(lc, "reactor.ReceiveInsert(newItem)") == 1 &&
+		strings.Index(lc, "reactor.ReceiveInsert(newItem)") > strings.Index(lc, "ifdiscard{") && strings.Count(lc, "discard=") == 1)
 	add := strings.ReplaceAll(src(fn("internal/pkg/source/lq/client.go", "LQClient.Add")), " ", "")
 	s.boolean("lqAddSkipsDuplicateValue", strings.Contains(add, `iferr.Error()=="sqlite3:constraintfailed:UNIQUEconstraintfailed:urls.value"{`) &&
 		strings.Contains(add, "continue}"))
